@@ -81,12 +81,12 @@ func ValidateTransaction(ctx sdk.Ctx, k Keeper, stdTx StdTx, params Params, tmNo
 	expectedFee := sdk.NewCoins(sdk.NewCoin(sdk.DefaultStakeDenom, k.GetParams(ctx).FeeMultiplier.GetFee(stdTx.Msg)))
 	// test for public key type
 	p, ok := pk.(posCrypto.PublicKeyMultiSig)
+	// validate the fees for every kind of public key
+	if !stdTx.Fee.IsAllGTE(expectedFee) {
+		return types.ErrInsufficientFee(ModuleName, expectedFee, stdTx.Fee)
+	}
 	// if standard public key
 	if !ok {
-		// validate the fees for a standard public key
-		if !stdTx.Fee.IsAllGTE(expectedFee) {
-			return types.ErrInsufficientFee(ModuleName, expectedFee, stdTx.Fee)
-		}
 		// validate signature for regular public key
 		if !simulate && !pk.VerifyBytes(signBytes, stdTx.Signature.Signature) {
 			return sdk.ErrUnauthorized("signature verification failed for the transaction")
